@@ -14,7 +14,8 @@ concurrent safety run (no panic, no nil host, bounded iteration) validated by Tr
 import json, os, re, collections
 import vf
 
-DEV_WORKERS = int(os.environ.get("VERIF_TLC_WORKERS", "0")) or None
+DEV_WORKERS = int(os.environ.get("VERIF_TLC_WORKERS", "0")) or None   # None: all cores (the exhaustive generator pass)
+VAL_WORKERS = DEV_WORKERS or min(8, vf.NCPU)                             # vector validation passes
 
 
 def harness_dirs(*ds):
@@ -65,7 +66,7 @@ def validate(ctx, name, vectors, timeout):
         return {}, {}, None
     p = os.path.join(ctx.tmp, "pvec_%s.ndjson" % name)
     vf.write_ndjson(p, vectors)
-    r = vf.run_tlc(ctx, "Trace_Policies", "Trace_Policies.cfg", workers=DEV_WORKERS, heap="6g", timeout=timeout,
+    r = vf.run_tlc(ctx, "Trace_Policies", "Trace_Policies.cfg", workers=VAL_WORKERS, heap="6g", timeout=timeout,
                    env={"VF_TRACE": p}, deadlock=False, name="pvectors_" + name)
     if not r.ok:
         raise vf.Inconclusive("vector validation failed to run (%s): %s\n%s" % (name, r.error or r.violated, r.out[-3000:]))
@@ -94,9 +95,34 @@ def report(ctx, viol, byid, origin):
     return groups
 
 
+def replay(ctx):
+    """bin/check C11 --replay FILE: re-execute the vectors of a replay file on the current tree and
+    let TLC judge the new sequences."""
+    rep = json.load(open(ctx.replay))
+    vecs = [v["detail"]["vector"] for v in rep.get("violations", []) if isinstance(v.get("detail"), dict) and "vector" in v["detail"]]
+    if not vecs:
+        raise vf.Inconclusive("no vectors in %s" % ctx.replay)
+    cases = [dict(id=i + 1, w=v["w"], hist=v["hist"], groups=[dict(q=g["q"], k=g["k"]) for g in v["groups"]] or [dict(q=-1, k=2)])
+             for i, v in enumerate(vecs)]
+    cp, rp = os.path.join(ctx.tmp, "pcases.ndjson"), os.path.join(ctx.tmp, "presults.ndjson")
+    vf.write_ndjson(cp, cases)
+    binary = vf.build_gotest(ctx, ".", harness_dirs("c10", "c11"))
+    rc, out = vf.run_gotest(ctx, binary, "^TestVfC11Cases$", env={"VF_CASES": cp, "VF_RESULTS": rp}, timeout=300)
+    if rc != 0 or "VFSUMMARY" not in out:
+        raise vf.Inconclusive("case driver failed (rc=%s):\n%s" % (rc, out[-3000:]))
+    real = vf.read_ndjson(rp)
+    viol, drift, tr = validate(ctx, "replay", real, 300)
+    groups = report(ctx, viol, {v["id"]: v for v in real}, "replayed vectors")
+    ctx.log("replayed %d vectors: %s" % (len(real), {k: len(v) for k, v in groups.items()}))
+    ctx.cov = dict(states=tr.distinct, transitions=tr.generated, traces_validated_against_impl=len(real),
+                   replay_of=ctx.replay, samples=[real[0]])
+
+
 def run(ctx):
     quick = ctx.tier == "quick"
     ctx.level = "model_checking"
+    if getattr(ctx, "replay", None):
+        return replay(ctx)
 
     # ---- 1. model pass + case generation
     cfgs_used = ["Gen_Policies_quick.cfg"] if quick else ["Gen_Policies_thorough_a.cfg", "Gen_Policies_thorough_b.cfg"]
